@@ -268,6 +268,29 @@ match: normalized("@P1")
 category: CN2
 '''
 
+T_SRCVARS = '''
+from_card = source == "@P3"
+is_wire = field.k == "@P4"
+pricey = amount > 9001
+
+[Card]
+match: from_card and contains("@P1")
+category: CCard
+
+[Wire]
+match: is_wire and not pricey
+category: CWire
+subcategory: SWire
+
+[CardBig]
+match: from_card and pricey
+category: CBig
+
+[Rest]
+match: startswith("@P2")
+category: CRest
+'''
+
 T_CHAIN = '''
 mid = 9001 < amount <= 9002
 
@@ -308,7 +331,7 @@ subcategory: SE4
 '''
 
 TEMPLATES = {'vars1': T_VARS1, 'vars2': T_VARS2, 'letshadow': T_LETSHADOW, 'letshadow2': T_LETSHADOW2, 'dates1': T_DATES1, 'dates2': T_DATES2,
-             'fields1': T_FIELDS1, 'fields2': T_FIELDS2, 'funcs1': T_FUNCS1, 'funcs2': T_FUNCS2, 'fail': T_FAIL, 'chain': T_CHAIN}
+             'fields1': T_FIELDS1, 'fields2': T_FIELDS2, 'funcs1': T_FUNCS1, 'funcs2': T_FUNCS2, 'fail': T_FAIL, 'chain': T_CHAIN, 'srcvars': T_SRCVARS}
 
 
 # ------------------------------------------------------------------------------------------- generated templates
